@@ -140,6 +140,38 @@ def head_no_writer(ctx, rule):
         ctx.violation(rule, rule + "|body-needed", "the builder's body-needed flag is not `request method != HEAD`: %s" % ", ".join(badm))
     elif badm is not None:
         ctx.ok(rule, "body_needed == (AsRequest::method(req) != Method::HEAD) for GET / HEAD / POST")
+    # everything else the constructor stores (the negotiation result, level, chunk size) is the same whatever the method: build()
+    # derives the headers from those fields, so a field that is computed differently for HEAD makes HEAD's headers differ
+    if badm is not None:
+        per = {}
+        for meth in ("GET", "HEAD", "POST"):
+            def calls2(name, args, term, meth=meth):
+                last = name.split("::")[-1]
+                if name.endswith("AsRequest::method") or last == "method":
+                    return "http::Method::" + meth
+                if last == "should_gzip":
+                    return 1
+                if last == "headers":
+                    return 0
+                raise Stuck("call %s" % name)
+            ev2 = Evaluator({1: "REQ"}, calls=calls2, extra=(lambda ev, t: t[1] if t[0] == "named" else NotImplemented))
+            try:
+                hits = trie.select(ev2)
+                if len(hits) != 1:
+                    raise Stuck("%d rows" % len(hits))
+                per[meth] = {n_: repr(ev2.ev(x_)) for n_, x_ in hits[0].value[4] if n_ != r["bn"]}
+            except Stuck as e:
+                ctx.violation(rule, rule + "|ctor-fields-unrecognised", "UNRECOGNISED: the builder's fields cannot be evaluated (%s)" % e)
+                per = None
+                break
+        if per:
+            diff = sorted(n_ for n_ in per["GET"] if len({per[m_].get(n_) for m_ in per}) > 1)
+            if diff:
+                ctx.violation(rule, rule + "|ctor-field-depends-on-method|" + ",".join(diff),
+                              "the constructor computes the builder field(s) %s differently for HEAD (%s) than for GET (%s): the headers build() derives from them differ" %
+                              (", ".join(diff), ", ".join(per["HEAD"][n_] for n_ in diff), ", ".join(per["GET"][n_] for n_ in diff)))
+            else:
+                ctx.ok(rule, "the constructor's other fields do not depend on the method", detail={"fields": sorted(per["GET"])})
     rows = [o for o in ctx.px(B["build"], inline=helper_inline(ctx, own=(B["adt"],)), key="helpers") if o.kind == "return"]
     bnf = ("field", ("param", 1), r["bn"])
     n = 0
@@ -384,6 +416,11 @@ def writer_delegation(ctx, rule):
                 continue
             if inner_v == "Err" and not dead_after:
                 ctx.violation(rule, "%s|%s|%s|err-keeps-state" % (rule, meth, var), "an inner %s error does not mark the writer dead" % meth)
+                continue
+            if inner_v == "Ok" and dead_after:
+                ctx.violation(rule, "%s|%s|%s|ok-kills-writer" % (rule, meth, var),
+                              "an inner %s that succeeded (for some Ok value) marks the writer dead: the chunk writer is dropped, the body ends cleanly and every later "
+                              "write fails although the producer did nothing wrong" % meth, where=where(calls[0]))
                 continue
             ctx.ok(rule, inst + " delegates to %s, inner %s%s" % ("the encoder" if through_gz else "the chunk writer", inner_v, ", writer dead afterwards" if dead_after else ""))
         need = {"dead", G["gz"], G["raw"]}
